@@ -34,7 +34,8 @@ type engineImpl struct {
 	dbf, jf, wf, sf *os.File
 	client          *fakeClient
 
-	held *litefs.GuardSet // internal write lock held by the `whold` op
+	held      *litefs.GuardSet // internal write lock held by the `whold` op
+	abandoned []abandonedStore // stores of "dead" processes (crash restarts)
 
 	// crash window
 	crashing   bool
@@ -42,6 +43,11 @@ type engineImpl struct {
 	snaps      []crashSnap
 	opCount    int
 	commitSnap int // number of snapshots taken when the transaction's commit call had returned (-1: none)
+}
+
+type abandonedStore struct {
+	store *litefs.Store
+	dir   string
 }
 
 var crcTable = crc64.MakeTable(crc64.ISO)
@@ -96,6 +102,17 @@ func (m *engineImpl) Close() {
 	crashMu.Unlock()
 	m.dropSnaps()
 	m.closeFiles()
+	// Remove the data files BEFORE closing: Store.Close runs a recovery on every database in a
+	// background goroutine, and a panic there (possible with planted files) would kill the harness.
+	if m.dir != "" {
+		_ = os.RemoveAll(filepath.Join(m.dir, "data", "dbs"))
+	}
+	for _, a := range m.abandoned {
+		_ = os.RemoveAll(filepath.Join(a.dir, "data", "dbs"))
+		_ = a.store.Close()
+		_ = os.RemoveAll(a.dir)
+	}
+	m.abandoned = nil
 	if m.store != nil {
 		_ = m.store.Close()
 		m.store = nil
@@ -566,6 +583,117 @@ func (m *engineImpl) Do(line string) string {
 		tctx, cancel := context.WithTimeout(ctx, 150*time.Millisecond)
 		defer cancel()
 		return m.withExit(errStr(m.db.Import(tctx, bytes.NewReader(data))))
+	case "plant", "corrupt":
+		// plant <file> <data>            : replace database|journal|wal with the given bytes
+		// corrupt <file> flip <off> <xor> : xor one byte
+		// corrupt <file> trunc <size>     : cut (or zero-extend) to size
+		// corrupt <file> zero <off> <len> : zero a region
+		// corrupt <file> put <off> <data> : overwrite bytes
+		// All of them act on the files on disk, behind LiteFS's back (what a crash, a partial write
+		// or a damaged disk leaves); they are only meaningful right before `reopen`.
+		if len(f) < 3 || m.store == nil || m.db == nil {
+			return "bad-op"
+		}
+		var path string
+		switch f[1] {
+		case "database":
+			path = m.db.DatabasePath()
+		case "journal":
+			path = m.db.JournalPath()
+		case "wal":
+			path = m.db.WALPath()
+		default:
+			return "bad-op"
+		}
+		if f[0] == "plant" {
+			data, ok := bytesOf(f[2])
+			if !ok {
+				return "bad-op"
+			}
+			if err := os.WriteFile(path, data, 0o666); err != nil {
+				return "err"
+			}
+			return "ok"
+		}
+		b, err := os.ReadFile(path)
+		if err != nil {
+			return "enoent"
+		}
+		switch {
+		case f[2] == "flip" && len(f) == 5:
+			off, ok1 := atoi(f[3])
+			x, ok2 := atoi(f[4])
+			if !ok1 || !ok2 || off < 0 || int(off) >= len(b) {
+				return "bad-op"
+			}
+			b[off] ^= byte(x)
+		case f[2] == "trunc" && len(f) == 4:
+			sz, ok := atoi(f[3])
+			if !ok || sz < 0 || sz > 1<<26 {
+				return "bad-op"
+			}
+			if int(sz) <= len(b) {
+				b = b[:sz]
+			} else {
+				b = append(b, make([]byte, int(sz)-len(b))...)
+			}
+		case f[2] == "zero" && len(f) == 5:
+			off, ok1 := atoi(f[3])
+			n, ok2 := atoi(f[4])
+			if !ok1 || !ok2 || off < 0 || n < 0 {
+				return "bad-op"
+			}
+			for i := int(off); i < int(off+n) && i < len(b); i++ {
+				b[i] = 0
+			}
+		case f[2] == "put" && len(f) == 5:
+			off, ok1 := atoi(f[3])
+			data, ok2 := bytesOf(f[4])
+			if !ok1 || !ok2 || off < 0 || int(off)+len(data) > len(b) {
+				return "bad-op"
+			}
+			copy(b[off:], data)
+		default:
+			return "bad-op"
+		}
+		if err := os.WriteFile(path, b, 0o666); err != nil {
+			return "err"
+		}
+		return "ok"
+	case "walfix": // recompute the checksum of the WAL header on disk (so that a crafted header verifies)
+		if m.db == nil {
+			return "bad-op"
+		}
+		b, err := os.ReadFile(m.db.WALPath())
+		if err != nil || len(b) < 32 {
+			return "enoent"
+		}
+		var bo binary.ByteOrder = binary.LittleEndian
+		if binary.BigEndian.Uint32(b[0:]) == 0x377f0683 {
+			bo = binary.BigEndian
+		}
+		var s0, s1 uint32
+		for i := 0; i < 24; i += 8 {
+			s0 += bo.Uint32(b[i:]) + s1
+			s1 += bo.Uint32(b[i+4:]) + s0
+		}
+		binary.BigEndian.PutUint32(b[24:], s0)
+		binary.BigEndian.PutUint32(b[28:], s1)
+		if err := os.WriteFile(m.db.WALPath(), b, 0o666); err != nil {
+			return "err"
+		}
+		return "ok"
+	case "fsize": // fsize <file>: size of a raw file (generator feedback only)
+		if len(f) != 2 || m.db == nil {
+			return "bad-op"
+		}
+		switch f[1] {
+		case "journal":
+			return fileSize(m.db.JournalPath())
+		case "wal":
+			return fileSize(m.db.WALPath())
+		}
+		return fileSize(m.db.DatabasePath())
 	case "locks": // state of the twelve locks as the store's expvar reports it
 		if !m.need() {
 			return "bad-op"
@@ -657,8 +785,7 @@ func (m *engineImpl) crashRestart(role string) string {
 		return "err copy"
 	}
 	m.closeFiles()
-	old, oldDir := m.store, m.dir
-	go func() { _ = old.Close(); _ = os.RemoveAll(oldDir) }()
+	m.abandoned = append(m.abandoned, abandonedStore{m.store, m.dir}) // closed (after its files are removed) at the end of the case
 	m.store, m.db, m.exit, m.dir = nil, nil, 0, newDir
 	if err := m.openStore(role); err != nil {
 		m.store = nil
